@@ -64,6 +64,10 @@
        returns true on such a pair) are composed in ONE theorem in the APPENDED SECTION at the end
        of this file: C20_serde_roundtrip_map_equal / C20_serde_roundtrip_set_equal (decode, then the
        crate's == returns true), for every WF source with pairwise different keys.
+     - step level (ROUND 2 section at the end): the model has no serializer function; what op
+       OSerde / SSerde prints (announced length, number of emitted entries) and does to the
+       registers is C20_step_OSerde_ok / C20_step_SSerde_ok / C20_step_*_emits; decoded == original
+       as well as original == decoded: C20_serde_roundtrip_*_equal_sym, C20_step_*_then_*Eq.
      - C20_ser_len alone is a list-length fact; the emitted sequence is tied to the iteration
        protocol by C20_ser_emits (appended section).  Set overflow twin: C20_serde_overflow_set.
      - the theorems are about the instrumented element types of the harness (key, vobj) and
@@ -474,3 +478,189 @@ Example C20_example_overflow_set :
   | _ => False
   end.
 Proof. vm_compute. exact I. Qed.
+
+(* ========================================================================== *)
+(* APPENDED SECTION, ROUND 2 (second audit) — Proofs/MoreFmt.v, part "ROUND 2"
+   ========================================================================== *)
+(* The model has NO serializer function: op OSerde r r' of the interpreter (Exec.step) reads
+   the source register src = get_m r x, prints the pair [len src; length (Exec.elems src)]
+   (the length the serializer announces; the number of entries it emits) and runs the visitor
+   on Exec.elems src into a fresh container of the TARGET register's capacity, which then
+   replaces register r' (the old value of r' is destroyed).  The theorems below are about
+   that step, i.e. about the observation the correspondence check compares with the real
+   crate built with --features serde.
+     WFx x        — all four registers hold well-formed containers and the interpreter is not
+                    dead (ExecSafe; preserved by every step: C02);
+     get_m r x    — map register r (0 or 1), get_s r x — set register r (2 or 3);
+     same_m r r'  — r and r' name the same map register (MoreEq), same_s for sets;
+     mview / sview — the (class, payload) / class list of a register, in slot order (ExecView);
+     post_m / post_s — the rendering of a register in an observation; events lg — the sorted
+                    drop / clone identities of the log lg. *)
+Require Import Proofs.ExecSafe Proofs.ExecUniq Proofs.ExecView Proofs.MoreEq.
+
+(* -------------------------------------------------------------------------- *)
+(* "serializing any Map or Set emits exactly len() entries", at the level the correspondence
+   check compares.  Honest script, WFx state, source with pairwise different keys, target
+   register large enough (so that the step returns normally):
+   - the observation is 1 (normal return), len src (announced), len src (emitted), then the
+     new content of the target register and the events;
+   - the target register afterwards is well formed, keeps its capacity, has the source's
+     length, pairwise different keys and the same (class, payload) list in the same order;
+   - it compares equal to the source with the crate's ==, in BOTH directions, from any world,
+     == changing nothing;
+   - if r' is another register than r the source register is literally unchanged;
+   - the interpreter is not dead. *)
+Theorem C20_step_OSerde_ok :
+  forall (debug : bool) (sc : script) (r r' : N) (x : xworld),
+    honest sc -> WFx x -> Uniq kcls (Spec.elems (get_m r x)) -> len (get_m r x) <= cap (get_m r' x) ->
+    let src := get_m r x in
+    let res := step debug sc (OSerde r r') x in
+    let m' := get_m r' (snd res) in
+    (exists lg : list event, fst res = [1%N; nn (len src); nn (len src)] ++ post_m m' ++ events lg) /\
+    WF m' /\ cap m' = cap (get_m r' x) /\ len m' = len src /\ Uniq kcls (Spec.elems m') /\
+    mview m' = mview src /\
+    (forall w : world key vobj cstate, exists w1 w2 : world key vobj cstate,
+        map_eq (env_map sc) src m' w = Ok true w1 /\ map_eq (env_map sc) m' src w = Ok true w2 /\
+        stable w w1 /\ stable w w2) /\
+    (~ same_m r' r -> get_m r (snd res) = src) /\
+    xdead (snd res) = false.
+Proof. exact step_OSerde_ok. Qed.
+Print Assumptions C20_step_OSerde_ok.
+
+Theorem C20_step_SSerde_ok :
+  forall (debug : bool) (sc : script) (r r' : N) (x : xworld),
+    honest sc -> WFx x -> Uniq kcls (Spec.elems (get_s r x)) -> len (get_s r x) <= cap (get_s r' x) ->
+    let src := get_s r x in
+    let res := step debug sc (SSerde r r') x in
+    let m' := get_s r' (snd res) in
+    (exists lg : list event, fst res = [1%N; nn (len src); nn (len src)] ++ post_s m' ++ events lg) /\
+    WF m' /\ cap m' = cap (get_s r' x) /\ len m' = len src /\ Uniq kcls (Spec.elems m') /\
+    sview m' = sview src /\
+    (forall w : world key unit cstate, exists w1 w2 : world key unit cstate,
+        map_eq (env_set sc) src m' w = Ok true w1 /\ map_eq (env_set sc) m' src w = Ok true w2 /\
+        stable w w1 /\ stable w w2) /\
+    (~ same_s r' r -> get_s r (snd res) = src) /\
+    xdead (snd res) = false.
+Proof. exact step_SSerde_ok. Qed.
+Print Assumptions C20_step_SSerde_ok.
+
+(* the announced / emitted prefix alone *)
+Theorem C20_step_OSerde_emits :
+  forall (debug : bool) (sc : script) (r r' : N) (x : xworld),
+    honest sc -> WFx x -> Uniq kcls (Spec.elems (get_m r x)) -> len (get_m r x) <= cap (get_m r' x) ->
+    exists t : list N,
+      fst (step debug sc (OSerde r r') x) = 1%N :: nn (len (get_m r x)) :: nn (len (get_m r x)) :: t.
+Proof. exact step_OSerde_emits. Qed.
+Print Assumptions C20_step_OSerde_emits.
+
+Theorem C20_step_SSerde_emits :
+  forall (debug : bool) (sc : script) (r r' : N) (x : xworld),
+    honest sc -> WFx x -> Uniq kcls (Spec.elems (get_s r x)) -> len (get_s r x) <= cap (get_s r' x) ->
+    exists t : list N,
+      fst (step debug sc (SSerde r r') x) = 1%N :: nn (len (get_s r x)) :: nn (len (get_s r x)) :: t.
+Proof. exact step_SSerde_emits. Qed.
+Print Assumptions C20_step_SSerde_emits.
+
+(* -------------------------------------------------------------------------- *)
+(* both directions of == in the one-theorem round trip: original == decoded AND
+   decoded == original (C14 symmetry of the boolean, EqClone.map_eq_sym) *)
+Theorem C20_serde_roundtrip_map_equal_sym :
+  forall (debug : bool) (sc : script) (src : map key vobj) (cp : nat) (s : cstate) (lg : list event),
+    honest sc -> WF src -> Uniq kcls (Spec.elems src) -> len src <= cp ->
+    wp (_ <- finally_drop (env_map sc) (visit_map debug sc (Exec.elems src)) ;;
+        m' <- get_self ;;
+        r1 <- map_eq (env_map sc) src m' ;;
+        r2 <- map_eq (env_map sc) m' src ;;
+        ret (r1, r2))
+       (fun (r : bool * bool) (w' : world key vobj cstate) =>
+          r = (true, true) /\
+          WF (self w') /\ len (self w') = len src /\ cap (self w') = cp /\
+          Uniq kcls (Spec.elems (self w')) /\ log w' = lg)
+       (fun _ : world key vobj cstate => False)
+       {| cb := s; log := lg; self := new_map cp |}.
+Proof. exact serde_roundtrip_map_equal_sym. Qed.
+Print Assumptions C20_serde_roundtrip_map_equal_sym.
+
+Theorem C20_serde_roundtrip_set_equal_sym :
+  forall (debug : bool) (sc : script) (src : map key unit) (cp : nat) (s : cstate) (lg : list event),
+    honest sc -> WF src -> Uniq kcls (Spec.elems src) -> len src <= cp ->
+    wp (_ <- finally_drop (env_set sc) (visit_seq debug sc (List.map fst (Exec.elems src))) ;;
+        m' <- get_self ;;
+        r1 <- map_eq (env_set sc) src m' ;;
+        r2 <- map_eq (env_set sc) m' src ;;
+        ret (r1, r2))
+       (fun (r : bool * bool) (w' : world key unit cstate) =>
+          r = (true, true) /\
+          WF (self w') /\ len (self w') = len src /\ cap (self w') = cp /\
+          Uniq kcls (Spec.elems (self w')) /\ log w' = lg)
+       (fun _ : world key unit cstate => False)
+       {| cb := s; log := lg; self := new_map cp |}.
+Proof. exact serde_roundtrip_set_equal_sym. Qed.
+Print Assumptions C20_serde_roundtrip_set_equal_sym.
+
+(* -------------------------------------------------------------------------- *)
+(* two steps of the interpreter: OSerde r r' into ANOTHER register, then == in either
+   direction: the source register is unchanged, the comparison returns normally (first 1)
+   and answers true (second 1) *)
+Theorem C20_step_OSerde_then_OEq :
+  forall (debug : bool) (sc : script) (r r' : N) (x : xworld),
+    honest sc -> WFx x -> Uniq kcls (Spec.elems (get_m r x)) -> len (get_m r x) <= cap (get_m r' x) ->
+    ~ same_m r' r ->
+    let x1 := snd (step debug sc (OSerde r r') x) in
+    get_m r x1 = get_m r x /\
+    (exists t : list N, fst (step debug sc (OEq r r') x1) = 1%N :: 1%N :: t) /\
+    (exists t : list N, fst (step debug sc (OEq r' r) x1) = 1%N :: 1%N :: t).
+Proof. exact step_OSerde_then_OEq. Qed.
+Print Assumptions C20_step_OSerde_then_OEq.
+
+Theorem C20_step_SSerde_then_SEq :
+  forall (debug : bool) (sc : script) (r r' : N) (x : xworld),
+    honest sc -> WFx x -> Uniq kcls (Spec.elems (get_s r x)) -> len (get_s r x) <= cap (get_s r' x) ->
+    ~ same_s r' r ->
+    let x1 := snd (step debug sc (SSerde r r') x) in
+    get_s r x1 = get_s r x /\
+    (exists t : list N, fst (step debug sc (SEq r r') x1) = 1%N :: 1%N :: t) /\
+    (exists t : list N, fst (step debug sc (SEq r' r) x1) = 1%N :: 1%N :: t).
+Proof. exact step_SSerde_then_SEq. Qed.
+Print Assumptions C20_step_SSerde_then_SEq.
+
+(* -------------------------------------------------------------------------- *)
+(* Non-vacuity: an interpreter state with m3 in map register 0, an empty map of capacity 4 in
+   register 1 (holding one stale entry would do as well), the set C20_s2 in set register 2 and
+   an empty set of capacity 3 in register 3. *)
+Definition C20_x0 : xworld :=
+  {| xcb := cs0; xm0 := m3; xm1 := new_map 4; xs0 := C20_s2; xs1 := new_map 3; xdead := false |}.
+
+Example C20_example_WFx : WFx C20_x0.
+Proof.
+  unfold WFx, C20_x0. cbn [xm0 xm1 xs0 xs1 xdead].
+  split; [exact m3_WF|]. split; [apply WF_new|]. split; [exact C20_example_WF_set|].
+  split; [apply WF_new | reflexivity].
+Qed.
+
+Example C20_example_step_hyps :
+  Uniq kcls (Spec.elems (get_m 0 C20_x0)) /\ len (get_m 0 C20_x0) <= cap (get_m 1 C20_x0) /\ ~ same_m 1 0 /\
+  Uniq kcls (Spec.elems (get_s 2 C20_x0)) /\ len (get_s 2 C20_x0) <= cap (get_s 3 C20_x0) /\ ~ same_s 3 2.
+Proof.
+  split; [exact C20_example_Uniq_map|]. split; [vm_compute; lia|]. split; [unfold same_m; discriminate|].
+  split; [exact C20_example_Uniq_set|]. split; [vm_compute; lia|]. unfold same_s; discriminate.
+Qed.
+
+(* the whole observation of OSerde 0 1: 1, announced 3, emitted 3, then register 1
+   (7777 len 3 cap 4, three fresh entries of the same classes and payloads), no event *)
+Example C20_example_step_OSerde :
+  fst (step false C20_sc0 (OSerde 0 1) C20_x0) =
+  [1; 3; 3; 7777; 3; 4; 100000; 5; 100001; 7; 100002; 6; 100003; 8; 100004; 7; 100005; 9; 8888; 8889]%N /\
+  get_m 0 (snd (step false C20_sc0 (OSerde 0 1) C20_x0)) = m3.
+Proof. split; vm_compute; reflexivity. Qed.
+
+Example C20_example_step_SSerde :
+  fst (step false C20_sc0 (SSerde 2 3) C20_x0) =
+  [1; 2; 2; 7777; 2; 3; 100000; 5; 100001; 6; 8888; 8889]%N.
+Proof. vm_compute. reflexivity. Qed.
+
+Example C20_example_step_then_eq :
+  let x1 := snd (step false C20_sc0 (OSerde 0 1) C20_x0) in
+  firstn 2 (fst (step false C20_sc0 (OEq 0 1) x1)) = [1; 1]%N /\
+  firstn 2 (fst (step false C20_sc0 (OEq 1 0) x1)) = [1; 1]%N.
+Proof. split; vm_compute; reflexivity. Qed.
